@@ -1,5 +1,5 @@
 HOOK_COMMITS = ["5411e01"]
-NOTES = "See DESIGN.md. Exit codes: 0 held / 1 violation (VIOLATION line) / 2 machinery failure."
+NOTES = "See DESIGN.md. Exit codes: 0 held / 1 violation (VIOLATION line) / 2 machinery failure. Beyond the listed properties the specification also covers the rest of the GFA library surface and its visited-flag protocol (spec/GfaQueries.tla, ./check X01, EXT-DEVIATION lines, evidence_ext/; DESIGN 11.2e) - not a claimed check."
 NOT_APPLICABLE = {}
 CHECKS = {
     "C14": dict(
